@@ -73,7 +73,7 @@ Definition join_dash (ps : list bytes) : bytes :=
   match ps with [] => [] | p :: ps => p ++ flat_map (fun q => 45 :: q) ps end.
 
 Definition trim_dash (s : bytes) : bytes :=
-  match rev s with 45 :: r => rev r | _ => s end.
+  match rev s with c :: r => if c =? 45 then rev r else s | [] => s end.
 
 (** normalizeHostname; [None] is the error. *)
 Definition normalize (h : bytes) : option bytes :=
